@@ -8,6 +8,8 @@ CONSTANT MaxWorkerKills = 0
 CONSTANT HeaderOnEmpty = TRUE
 CONSTANT OwnBuffer = FALSE
 CONSTANT HeaderNoClaim = TRUE
+CONSTANT SplitWrites = FALSE
+CONSTANT StatWrongLock = FALSE
 SPECIFICATION Spec
 VIEW view
 INVARIANT NoDupRows
